@@ -6,7 +6,7 @@ from ..layouts import zoo, lay1
 from ..nd import prod, lane_positions, result_shape
 from ..plans import sum_plan, plan_term
 from ..pyfloat import FP, finite
-from .numcommon import mk_num_case, parse_num, model_ints, float_pool, fval, enc_vals
+from .numcommon import mk_num_case, parse_num, model_ints, float_pool, fval, enc_vals, plan_of
 from .c06 import tab_term
 
 FLOATS = ("f64", "f32")
@@ -234,9 +234,9 @@ class C07(Prop):
         d = zlist(model_ints(et, case.vals[0]))
         if r in STAT1:
             p = getattr(case, "order", 0)
-            return "%s_stat1 [] [] %d %s %s %d" % (pre, STAT1[r], plan_term(sum_plan(case._lays[0])), d, p)
+            return "%s_stat1 [] [] %d %s %s %d" % (pre, STAT1[r], plan_of(case, 0), d, p)
         w = zlist(model_ints(et, case.vals[1]))
-        plw = plan_term(sum_plan(case._lays[1]))
+        plw = plan_of(case, 1)
         dd = int(enc_vals(et, [case.ddof])[0])
         if r in STAT2:
             return "%s_stat2 [] [] %d %s %s %s %d" % (pre, STAT2[r], plw, d, w, dd)
